@@ -395,7 +395,16 @@ pub fn narrow_selection(rng: &mut Rng, s: &Map<String, Value>, drop_pm: u64) -> 
                 }
             }
             Value::Object(o) => Value::Object(o.iter().map(|(k, c)| (k.clone(), nar(rng, c, drop_pm, false))).collect()),
-            Value::Array(a) => Value::Array(a.iter().map(|c| nar(rng, c, drop_pm, true)).collect()),
+            Value::Array(a) => {
+                let mut out: Vec<Value> = a.iter().map(|c| nar(rng, c, drop_pm, true)).collect();
+                // trailing entries that select nothing may just as well be absent
+                if rng.chance(1, 4) {
+                    while matches!(out.last(), Some(Value::Bool(false)) | Some(Value::Null)) {
+                        out.pop();
+                    }
+                }
+                Value::Array(out)
+            }
             _ => v.clone(),
         }
     }
